@@ -158,7 +158,7 @@ def main(argv):
                 undecided.append(f"kani: {e}")
                 harnesses = []
         if harnesses:
-            jobs = int(os.environ.get("VERIF_JOBS", "8"))
+            jobs = int(os.environ.get("VERIF_JOBS", "4"))
             r = kx.run_kani(scratch, harnesses, jobs=jobs, timeout_s=int(plan.get("harness_timeout_s", 1500)))
             checker_cmds.append(r["cmd"])
             results = r["results"]
@@ -171,6 +171,7 @@ def main(argv):
                     undecided.append(f"kani/{h}: harness not generated or not run (lost anchor)")
                     continue
                 ob = {"name": f"kani/{h}", "backend": "kani+cbmc+cadical", "ok": res["status"] == "ok", "time_s": res["time_s"],
+                      "clauses": res.get("clauses", [])[:12],
                       "cbmc_checks": res.get("checks"), "covers": f"{res.get('cover_satisfied', 0)}/{res.get('cover_total', 0)}",
                       "bounded": info.get("bounded")}
                 if res["status"] == "fail" and res["failed_checks"]:
